@@ -212,7 +212,7 @@ def run(F, rep, tier, allfacts):
                 continue
             arr = describe(f, aggs[0][3][0], depth=8)
             tc = blk["t"]
-            okarm = tc[0] == "call" and callee_name(tc[1]) == "fuel_asm::_op::%s::reserved_part_is_zero" % X and re.match(r"^agg:\[array\]\((var:a|arg:#1\[1\]),(var:b|arg:#1\[2\]),(var:c|arg:#1\[3\])\)$", arr) is not None
+            okarm = tc[0] == "call" and callee_name(tc[1]) == "fuel_asm::_op::%s::reserved_part_is_zero" % X and re.match(r"^agg:\[array\]\((var:\w+|arg:#1\[1\]),(var:\w+|arg:#1\[2\]),(var:\w+|arg:#1\[3\])\)$", arr) is not None
             if okarm:
                 # result false -> Err ; true -> Instruction::X
                 nxt = tc[4]
